@@ -55,6 +55,9 @@ def count_digits(number: NumericValueType) -> tuple[int, int]:
         return len(integer_part.lstrip('0')), len(decimal_part.rstrip('0'))
 
     significand = significand.strip('0')
+    if not significand or significand == '.':
+        return 0, 0  # zero written with an exponent, e.g. Decimal('0.00000000') is '0E-8'
+
     exponent = int(_exponent)
 
     num_digits = len(significand) - 1 if '.' in significand else len(significand)
